@@ -10,7 +10,7 @@ func init() {
 			"(c) the estimate entry points run the same compute function with the same arguments on a cache context whose write-back is never called; (d) the progress / overshoot / overcharge guards precede the state updates of the swap loop; (e) totals: amount in is ceiled, amount out truncated.",
 		NotCovered:  []string{"the bound on the distance from the exact rational curve", "value equality of estimate and execution beyond 'same code, same arguments'", "the round-trip inequality", "18- vs 36-digit regimes"},
 		Assumptions: []string{"operands of the price functions are positive and liquidity − product > 0 (direction inference)", "rounding classes of osmomath as proved by C12"},
-		MinObl:      140,
+		MinObl:      143,
 		Run:         runC03,
 	})
 }
@@ -114,6 +114,7 @@ func runC03swaps(c *rules.Ctx) {
 	// ---- (f) one transition for estimate and execution; settlement of the computed amounts
 	clSwapLoopRules(c)
 	clSwapSettleRules(c)
+	clPoolWriteRules(c)
 }
 
 func itoa(i int) string { return string(rune('0' + i)) }
